@@ -29,6 +29,16 @@ def gen_tcfg(rng):
     d['flip_x'] = rng.random() < 0.4
     d['flip_y'] = rng.random() < 0.4
     d['n_glass'], d['n_environment'] = rng.choice(pgm.INDICES) if rng.random() < 0.8 else (rng.uniform(1.0, 2.5), rng.uniform(1.0, 1.6))
+    if rng.random() < 0.35:
+        # the same settings in another legitimate form: numpy booleans / 0-1 integers for the flags, a list or an array for
+        # the origin, numpy scalars or integers for the numbers
+        form = rng.choice([np.bool_, int])
+        d['flip_x'], d['flip_y'] = form(d['flip_x']), form(d['flip_y'])
+        d['shift_origin'] = rng.choice([list, np.array, tuple])(d['shift_origin'])
+        a = d['rotation_angle']
+        if a is not None:
+            d['rotation_angle'] = rng.choice([np.float64, float] + ([int, np.int64] if float(a).is_integer() else []))(a)
+        d['n_glass'], d['n_environment'] = np.float64(d['n_glass']), rng.choice([float, np.float64])(d['n_environment'])
     return d
 
 
@@ -37,9 +47,9 @@ def tc_lit(d):
     th = math.radians(a % 360) if a else 0.0
     c, s = math.cos(th), math.sin(th)
     k = Fraction(d['n_environment']) / Fraction(d['n_glass'])
-    sx, sy = d['shift_origin']
+    sx, sy = (float(v) for v in d['shift_origin'])
     return ('{| t_sx := %s; t_sy := %s; t_fx := %s; t_fy := %s; t_c := %s; t_s := %s; t_k := %s |}' % (
-        cq(frac(sx)), cq(frac(sy)), cb(d['flip_x']), cb(d['flip_y']), cq(frac(c)), cq(frac(s)), cq(k)))
+        cq(frac(sx)), cq(frac(sy)), cb(bool(d['flip_x'])), cb(bool(d['flip_y'])), cq(frac(c)), cq(frac(s)), cq(k)))
 
 
 def pts_lit(pts):
@@ -165,7 +175,7 @@ def run(rep: common.Report, tier: str, seed: int):
             continue
         seen.add(h)
         d = c['cfg']
-        nt += sum([tuple(d['shift_origin']) != (0.0, 0.0), d['flip_x'], d['flip_y'], bool(d['rotation_angle']), d['n_glass'] != d['n_environment']]) >= 2
+        nt += sum([tuple(float(v) for v in d['shift_origin']) != (0.0, 0.0), bool(d['flip_x']), bool(d['flip_y']), bool(d['rotation_angle']), d['n_glass'] != d['n_environment']]) >= 2
     rep.coverage.update({
         'evaluations': len(cases), 'distinct_nontrivial': nt,
         'rule': 'case = (shift, flips, angle, indices, points) at a call site (transform_points scalar/1/n/float64, export_array2d '
